@@ -6,6 +6,9 @@ every stall and every fault.  The generator only *biases* its choices with
 the wire tracker (so that most calls are valid and runs go deep); it records
 each decision as a concrete event and executes it through ``World.exec``.
 """
+import collections
+import copy
+import hashlib
 import random
 
 from . import codec as C
@@ -40,6 +43,7 @@ BASE = {
     'goaway': 0.01,
     'adv': 0.0,              # per-event probability of an adversary frame
     'raw_garbage': 0.0,
+    'fork': 0.0,             # share of runs in which arbitrary adversary frames / byte faults are tried in what-if branches
     'adv_plausible': 0.7,    # after the adversary 'goes wild': share of its frames that are still valid in the victim's state   # share of adversary frames that are valid in the victim's current state
 }
 
@@ -56,8 +60,8 @@ PROFILES = {
     'FLOW': prof(windows='small', settings_churn=0.08, misuse=0.08, stall=0.08),
     'HDR': prof(hdr_variety=1.0, config_matrix=0.5, big_headers=0.2, misuse=0.2, cl=0.3),
     'UPGRADE': prof(upgrade=1.0),
-    'CORRUPT': prof(mode_b=0.05, epilogue=False, misuse=0.05),
-    'ADV': prof(adv=0.5, mode_b=0.02, epilogue=False, misuse=0.05, events=(40, 300)),
+    'CORRUPT': prof(mode_b=0.05, epilogue=False, misuse=0.05, fork=0.5),
+    'ADV': prof(adv=0.5, mode_b=0.02, epilogue=False, misuse=0.05, events=(40, 300), fork=0.6),
     'MISUSE': prof(misuse=0.4, small_closed=0.6, fsm_misuse=1.0),
     'CLOSE': prof(goaway=0.05, misuse=0.3, fsm_misuse=1.0, epilogue=False),
     'LONG': prof(long=True, epilogue=False, misuse=0.0, events=(4000, 20000), small_closed=0.7, burst=1.0, race_start=0.0),
@@ -357,6 +361,19 @@ class Gen:
                 self.silent = World.src_of(self.adv_dir)   # the stub side's application says nothing itself
         cfg['swarm']['adv_dir'] = self.adv_dir
         cfg['swarm']['silent'] = self.silent
+        # what-if branches (DESIGN 10.6): the main line stays alive (the adversary only sends frames that are valid in
+        # the victim's state, no byte faults); each arbitrary frame / fault is tried on a deep copy of the whole
+        # simulation, judged there by copies of the monitors, and thrown away
+        self.fork_mode = rng.random() < P.get('fork', 0.0)
+        cfg['swarm']['fork'] = self.fork_mode
+        self.is_branch = False
+        self.branch_ctr = 0
+        self.branch_findings = []      # [(violations, trace)] of branches that ended in a violation
+        self.branch_probes = collections.Counter()
+        self.branch_nontrivial = False
+        self.branch_steps = 0
+        self.branch_faults = {}
+        self.branch_cb = None          # self-test hook: called with every finished branch
         self.nohead = set()        # (ep, sid): messages that must not carry a body
         self.lie_streams = set()   # (ep, sid): the application deliberately breaks content-length / no-content rules (C16)
 
@@ -463,20 +480,33 @@ class Gen:
         # the adversary behaves (frames valid in the victim's state) until a random point of the run, so that its
         # arbitrary frames - each of which may well be the last one the connection sees - meet deep states
         self.adv_wild_from = int(self.n_events * rng.choice([0.0, 0.3, 0.5, 0.7, 0.9]))
+        if self.fork_mode:
+            self.adv_wild_from = self.n_events + 1      # the main line never goes wild: branches do
         self.iter = 0
         while i < self.n_events and not self.halted:
             i += 1
             self.iter = i
+            self._iterate()
+        if self.halted:
+            return
+        if P['epilogue']:
+            self._epilogue()
+
+    def _iterate(self):
+        rng = self.rng
+        P = self.P
+        w = self.w
+        if True:
             if P['adv'] and rng.random() < P['adv'] * 0.3:
                 self._adversary()
-                continue
+                return
             r = rng.random()
             if r < 0.42:
                 ep = rng.choice('cs')
                 if w.eps[ep].trk.closed and rng.random() < 0.7:
-                    continue
+                    return
                 if ep == self.silent:
-                    continue
+                    return
                 if rng.random() < self.misuse:
                     self._misuse(ep)
                 else:
@@ -497,16 +527,12 @@ class Gen:
                 d = rng.choice(['c2s', 's2c'])
                 if self.stalled[d] > 0:
                     self.stalled[d] -= 1
-                    continue
+                    return
                 if not w.pipes[d].backlog:
-                    continue
+                    return
                 n = rng.choice([1, 2, 3, 8, 9, 10, 17, 24, 25, 50, 200, 5000, 1 << 30, 1 << 30])
                 cap = 0 if self.burst else rng.choice([1, 1, 2])
                 self.deliver(d, n, cap)
-        if self.halted:
-            return
-        if P['epilogue']:
-            self._epilogue()
 
     # -- LONG profile: adversary churn against one real endpoint --------------
     def _run_long(self):
@@ -1078,8 +1104,12 @@ class Gen:
             if not fsm_ok and not recursive and (e.client or not (st is not None and not st.mine and st.state in ('open', 'hcR'))):
                 return
             promised = rng.choice([trk.hi_mine + 2, 2, 4, 3, MAXID - 1, trk.hi_mine, 0])
+            if recursive and rng.random() < 0.6:
+                promised = trk.hi_mine + 2
             hs = rng.choice([hg.request(mf), hg.invalid(max_frame=mf), hg.response(max_frame=mf)])
-            self.call(ep, 'push_stream', sid=sid, promised=promised, headers=hs)
+            s_ = self.call(ep, 'push_stream', sid=sid, promised=promised, headers=hs)
+            if s_ is not None and not s_.ok and not e.client and promised == trk.hi_mine + 2 and promised <= MAXID:
+                self._poke_leftover(ep, promised)
         elif k == 5:
             data = rng.choice([b'', b'1234567', b'123456789', '12345678', b'\x00' * 8])
             self.call(ep, 'ping', data=data)
@@ -1204,6 +1234,28 @@ class Gen:
         else:
             self.call(ep, rng.choice(['open_outbound_streams', 'open_inbound_streams']))
 
+    def _poke_leftover(self, ep, sid):
+        """After a refused call that named a fresh stream id: calls that would trip over anything the refused call
+        left behind (a ghost stream, a burnt id).  All of them are plain refusals on an intact library."""
+        rng = self.rng
+        if self.halted or rng.random() < 0.4:
+            return
+        hg = self.hg[ep]
+        for _ in range(rng.choice([1, 2, 3])):
+            if self.halted:
+                return
+            k = rng.randrange(5)
+            if k == 0:
+                self.call(ep, 'send_headers', sid=sid, headers=rng.choice([hg.request(), hg.response()]), es=rng.random() < 0.3)
+            elif k == 1:
+                self.call(ep, 'get_next_available_stream_id')
+            elif k == 2:
+                self.call(ep, 'send_data', sid=sid, data=b'leftover', es=False, pad=None)
+            elif k == 3:
+                self.call(ep, 'reset_stream', sid=sid, code=0)
+            else:
+                self.call(ep, 'local_flow_control_window', sid=sid)
+
     def _headers_state_ok(self, trk, sid, st):
         """Would a send_headers on sid be FSM-legal (so that a refusal, if any,
         comes from validation and not from the stream/connection FSM)?"""
@@ -1218,15 +1270,93 @@ class Gen:
     # -- faults / adversary: filled in by faults.py -------------------------
     def _fault(self):
         from . import faults
+        if self.fork_mode and not self.is_branch:
+            self._branch('fault')
+            return
         ev = faults.draw(self)
         if ev is not None:
             self.ex(ev)
 
     def _adversary(self):
         from . import adversary
+        if self.fork_mode and not self.is_branch and self.rng.random() < 0.6:
+            self._branch('adv')
+            return
         ev = adversary.draw(self)
         if ev is not None:
             self.ex(ev)
+
+    MAX_BRANCHES = 16
+
+    def _branch(self, kind):
+        """Try one arbitrary adversary frame / byte fault on a deep copy of the whole simulation (both
+        connections, trackers, taps, pipes, generator bookkeeping, monitors), let the copy run on for a few
+        iterations, collect what its monitors say, and drop it.  The copy's trace is this run's trace so far plus
+        the branch's own events: a complete, replayable trace.  The main line draws exactly one number for a
+        branch, whatever happens inside it."""
+        tag = self.rng.getrandbits(48)
+        if self.branch_ctr >= self.MAX_BRANCHES or self.halted:
+            return
+        self.branch_ctr += 1
+        w = self.w
+        memo = {}
+        for st in w.steps:           # finished steps and executed events are immutable history: shared, not copied
+            memo[id(st)] = st
+        for ev in w.trace:
+            memo[id(ev)] = ev
+        b = copy.deepcopy(self, memo)
+        b.is_branch = True
+        b.rng = random.Random(int.from_bytes(hashlib.sha256(('%d/branch/%d' % (self.seed, tag)).encode()).digest()[:8], 'big'))
+        for h_ in b.hg.values():
+            h_.rng = b.rng
+        b.adv_wild_from = 0
+        b.P = dict(b.P)
+        b.P['adv_plausible'] = 0.0
+        n0 = len(b.w.steps)
+        b.ex({'ev': 'note', 'what': 'branch', 'n': self.branch_ctr, 'kind': kind})
+        if kind == 'adv':
+            from . import adversary
+            ev = None
+            for _ in range(3):
+                ev = adversary.draw(b)
+                if ev is not None:
+                    break
+        else:
+            from . import faults
+            ev = faults.draw(b)
+        if ev is None:
+            return
+        b.ex(ev)
+        # deliver what is queued towards the victim, one dispatch unit at a time where the network allows
+        d = ev.get('dir')
+        if d in b.w.pipes:
+            cap = b.rng.choice([1, 1, 1, 2, 0])
+            for _ in range(40):
+                if b.halted or not b.w.pipes[d].backlog:
+                    break
+                b.deliver(d, 1 << 30, cap)
+        for _ in range(b.rng.choice([0, 3, 8, 20])):
+            if b.halted:
+                break
+            b._iterate()
+        for m in b.w.monitors:
+            m.finish(b.w)
+        self.branch_steps += len(b.w.steps) - n0
+        if self.branch_cb is not None:
+            self.branch_cb(b)
+        vs = [v for m in b.w.monitors for v in m.violations]
+        if vs and not self.branch_findings:
+            self.branch_findings.append((vs, list(b.w.trace)))
+        for mb, mm in zip(b.w.monitors, self.w.monitors):
+            for k, v in mb.probes.items():
+                if v > mm.probes.get(k, 0):
+                    self.branch_probes[k] += v - mm.probes.get(k, 0)
+            if mb.nontrivial:
+                self.branch_nontrivial = True
+        for k, v in b.w.fault_fired.items():
+            dv = v - self.w.fault_fired.get(k, 0)
+            if dv > 0:
+                self.branch_faults[k] = self.branch_faults.get(k, 0) + dv
 
     # -- upgrade -----------------------------------------------------------
     def _start_upgrade(self):
